@@ -31,6 +31,8 @@ func main() {
 		os.Exit(checks.SelfTest())
 	case "c08":
 		os.Exit(checks.C08Sub(os.Args[2:]))
+	case "c20":
+		os.Exit(checks.C20Sub(os.Args[2:]))
 	case "c09":
 		os.Exit(checks.C09Sub(os.Args[2:]))
 	case "worker":
